@@ -81,7 +81,7 @@ def run(tier, seed):
                 res.harness_errors.append("valgrind %s: rc=%s %s" % (be, rc, tail[-500:]))
     res.rule = ("E1 rapidcheck, stateful: configuration (n in {1,3,7,8,9} and 2..24; big: {500,630,1024,1025,1100} and both default sets; k in {1,2}; Bgbit 1..16 with l up to 32/Bgbit; basebit 1..4 with t up to 31/basebit, "
                 "bounded by key size) x lifecycle = generated sequence over {encrypt, every gate (new or in-place output, original or re-imported cloud key), four bootstrap variants, ciphertext / cloud / secret / parameter export on "
-                "both transports, cloud and secret import, ciphertext arrays, key switch, decrypt, delete ciphertext / imported key set in generated order, thread that evaluates and exits}; a liveness model keeps calls valid and everything "
+                "both transports, cloud and secret import, ciphertext arrays, key switch, decrypt, delete ciphertext / imported key set in generated order, thread that evaluates and exits, a second key set of another dimension used alternately with the first on the same thread and then released, a low-level bootstrapping key + FFT key pair released in either order with the survivor still used}; a liveness model keeps calls valid and everything "
                 "alive is released at the end in a generated order. Monitors: AddressSanitizer + UBSan subset on all five back-ends (with and without -march=native), LeakSanitizer check at the end of every lifecycle (each lifecycle in a forked child, so "
                 "a leak is attributed to and shrinks with its case; parameter objects owned by the library's collector stay reachable and are not leaks), the same seeded lifecycles under two allocation fill bytes (0x00 / 0xA5) with all "
                 "ciphertext and exported bytes compared, valgrind memcheck on the haswell build for the assembly back-ends. Non-trivial = configuration outside the defaults (n<8, n>N, k=2, extreme gadget layout) or a lifecycle with a thread exit or an import; distinct by case hash.")
